@@ -234,14 +234,17 @@ class Sender:
         self.hashf = hashf
         self.epoch = 0               # number of _activate_outbound calls
 
-    def switch(self, secret):
-        """what the end of a key exchange does on the sending side"""
-        self.keys.append(secret)
+    def switch(self, secret, suite=None):
+        """what the end of a key exchange does on the sending side; suite = the algorithms this exchange
+        agreed on for the direction (default: unchanged)"""
+        self.keys.append(tuple(secret) + (suite,))
         t = self.t
         t.kex_engine = _Kex(self.hashf)
         t.K, t.H = secret
         if t.session_id is None:
             t.session_id = secret[1]
+        if suite is not None:
+            t.local_cipher, t.local_mac, t.local_compression = suite
         t._activate_outbound()
         self.epoch += 1
 
@@ -273,9 +276,11 @@ class Receiver:
                 raise Machinery("receiver got NEWKEYS number %d but only %d secrets exist" % (self.epoch + 1, len(self.keys)))
             t = self.t
             t.kex_engine = _Kex(self.hashf)
-            t.K, t.H = self.keys[self.epoch]
+            t.K, t.H = self.keys[self.epoch][:2]
             if t.session_id is None:
                 t.session_id = self.keys[0][1]
+            if self.keys[self.epoch][2] is not None:
+                t.remote_cipher, t.remote_mac, t.remote_compression = self.keys[self.epoch][2]
             t._activate_inbound()
             self.epoch += 1
             return "newkeys", None, m.seqno
@@ -498,7 +503,8 @@ class Recorded:
         self.info = suite_info(suite)
         w = L.wire
         self.plain = bytes(w.data)
-        op = Opener(suite, L.keys[0], L.keys[0][1], L.hashf)
+        self.reader_error = None
+        op = Opener(suite, L.keys[0][:2], L.keys[0][1], L.hashf)
         self.pkts = []
         k = 0
         for step in script:
@@ -516,10 +522,18 @@ class Recorded:
             raw = bytes(w.data[start:])
             res = op.open(raw, seq)
             if res.get("error") or not res.get("mac_ok") or res.get("message") != msg:
-                raise Machinery("independent reader cannot open the recorded packet: %s" % {k: v for k, v in res.items() if k != "message"})
-            self.pkts.append(Pk(raw, kind, mid, regions(0, res)))
+                # the independent reader disagrees with the sender (that is C03's / C04's business); the regions
+                # are only names for where an edit lands, so fall back to what is certain: 4 length bytes, the
+                # padding-length byte, at least 4 bytes of padding before the MAC
+                self.reader_error = {k: v for k, v in res.items() if k != "message"}
+                mac, end = self.info["macsize"], len(raw)
+                reg = {"length": (0, 4), "padlen": (4, 5), "payload": (5, end - mac - 4),
+                       "padding": (end - mac - 4, end - mac), "mac": (end - mac, end)}
+            else:
+                reg = regions(0, res)
+            self.pkts.append(Pk(raw, kind, mid, reg))
             if step != "S":
-                op = Opener(suite, L.keys[-1], L.keys[0][1], L.hashf)
+                op = Opener(suite, L.keys[-1][:2], L.keys[0][1], L.hashf)
 
     def events(self):
         return [{"a": "Send" if p.kind == "data" else "Switch", "i": p.mid, "r": "", "got": 0, "seq": -1} for p in self.pkts]
@@ -540,7 +554,8 @@ def _effective(pk, i, off, byte, deleting):
     else:
         while g < len(stream) and stream[g] == byte:
             g += 1
-    g = min(g, len(stream) - 1)
+    if g >= len(stream):          # the insertion amounts to a byte appended behind the last packet
+        return None, None
     j = max(k for k in range(len(pk)) if starts[k] <= g and (pk[k].raw or k == 0))
     return j + 1, g - starts[j]
 
@@ -583,7 +598,7 @@ def apply_edits(rec, edits, rnd):
             byte = rnd.randrange(256)
             ei, eo = _effective(pk, i, off, byte, False)
             p.raw = p.raw[:off] + bytes([byte]) + p.raw[off:]
-            concrete.append(("InsByte", ei, eo))
+            concrete.append(("InsByte", ei, eo) if ei is not None else ("Append", i, byte))
         elif op == "Drop":
             del pk[i - 1]
             concrete.append(("Drop", i))
@@ -637,3 +652,443 @@ def run_receiver(rec, body):
         ev.append({"a": "Read", "i": 0, "r": kind, "got": got, "seq": s - base})
         if len(ev) > 4 * len(rec.pkts) + 16:
             raise Machinery("receiver returned more packets than could be on the wire")
+
+
+# --------------------------------------------------------------------------- key derivation (C04)
+
+# what each cipher / MAC needs, from the RFCs that define them (RFC 4253 6.3 / 6.4, RFC 4344, RFC 5647, RFC 6668)
+RFC_CIPHER = {  # name: (key bytes, iv bytes)
+    "aes128-ctr": (16, 16), "aes192-ctr": (24, 16), "aes256-ctr": (32, 16),
+    "aes128-cbc": (16, 16), "aes192-cbc": (24, 16), "aes256-cbc": (32, 16), "3des-cbc": (24, 8),
+    "aes128-gcm@openssh.com": (16, 12), "aes256-gcm@openssh.com": (32, 12)}
+RFC_MAC_KEY = {"hmac-sha1": 20, "hmac-sha1-96": 20, "hmac-md5": 16, "hmac-md5-96": 16, "hmac-sha2-256": 32, "hmac-sha2-512": 64,
+               "hmac-sha2-256-etm@openssh.com": 32, "hmac-sha2-512-etm@openssh.com": 64}
+
+
+class RecordingHash:
+    """stands in for kex_engine.hash_algo: a hashlib constructor that records every input"""
+
+    def __init__(self, hashf):
+        self.hashf = hashf
+        self.calls = []          # (input bytes, digest)
+
+    def __call__(self, data=b""):
+        h = self.hashf(data)
+        rec = self
+
+        class _H:
+            def digest(self_inner):
+                d = h.digest()
+                rec.calls.append((bytes(data), d))
+                return d
+
+            def hexdigest(self_inner):
+                return self_inner.digest().hex()
+            digest_size = h.digest_size
+        return _H()
+
+
+def tokens(inp, K, H, sid, digests):
+    """parse one hash input into the spec's terms: K (mpint), H, then letter + session id or earlier digests"""
+    out = []
+    k = mpint(K)
+    if inp.startswith(k):
+        out.append({"t": "K", "v": "", "i": 0})
+        inp = inp[len(k):]
+    if inp.startswith(H):
+        out.append({"t": "H", "v": "", "i": 0})
+        inp = inp[len(H):]
+    if len(inp) == 1 + len(sid) and inp[1:] == sid and 0x41 <= inp[0] <= 0x5a:
+        out.append({"t": "X", "v": chr(inp[0]), "i": 0})
+        out.append({"t": "sid", "v": "", "i": 0})
+        return out
+    while inp:
+        for j, d in enumerate(digests, 1):
+            if inp.startswith(d):
+                out.append({"t": "D", "v": "", "i": j})
+                inp = inp[len(d):]
+                break
+        else:
+            out.append({"t": "?", "v": inp[:8].hex(), "i": len(inp)})
+            break
+    return out
+
+
+def compute_key_record(rnd, hashf, letter, n, K=None, H=None, sid=None):
+    """call the real Transport._compute_key on a harness transport; log the hash calls it makes"""
+    T = _T()
+    t = T(SendEnd(Wire()))
+    rh = RecordingHash(hashf)
+    t.kex_engine = _Kex(rh)
+    hl = hashf().digest_size
+    K = max(1, rnd.getrandbits(rnd.choice([1, 8, 255, 256, 257, 1023, 1024, 2048, 4096]))) if K is None else K
+    H = bytes(rnd.getrandbits(8) for _ in range(hl)) if H is None else H
+    sid = bytes(rnd.getrandbits(8) for _ in range(rnd.choice([hl, 20, 32]))) if sid is None else sid
+    t.K, t.H, t.session_id = K, H, sid
+    out = t._compute_key(letter, n)
+    digests = [d for _, d in rh.calls]
+    calls = [tokens(inp, K, H, sid, digests[:i]) for i, (inp, _) in enumerate(rh.calls)]
+    return {"kind": "compute", "letter": letter, "n": n, "hl": hl, "calls": calls,
+            "out_ok": out == b"".join(digests)[:n] and len(out) == n,
+            "rfc_ok": out == rfc_kdf(hashf, K, H, sid, letter, n),
+            "kbits": K.bit_length(), "hash": hashf().name}
+
+
+class LoopSock:
+    """one end of an in-memory socket pair (own implementation; the idea is tests/_loop.py)"""
+
+    def __init__(self):
+        import threading
+        self.buf = bytearray()
+        self.cv = threading.Condition()
+        self.peer = None
+        self.closed = False
+        self.timeout = None
+        self.sent_bytes = 0
+        self.recv_bytes = 0
+        self.line_mode = True     # until the version banner has been read, never return bytes beyond a newline
+                                  # (Packetizer.readline would keep them as "remainder": harmless, but then the
+                                  # bytes a read_message consumed could not be measured at the socket)
+
+    @property
+    def _closed(self):          # Transport.stop_thread looks at sock._closed (as socket.socket has it)
+        return self.closed
+
+    @staticmethod
+    def pair():
+        a, b = LoopSock(), LoopSock()
+        a.peer, b.peer = b, a
+        return a, b
+
+    def settimeout(self, t):
+        self.timeout = t
+
+    def send(self, data):
+        p = self.peer
+        if self.closed or p is None or p.closed:
+            raise OSError(32, "Broken pipe")
+        with p.cv:
+            p.buf += data
+            p.cv.notify_all()
+        self.sent_bytes += len(data)
+        return len(data)
+
+    def recv(self, n):
+        with self.cv:
+            if not self.buf and not self.closed and not (self.peer is None or self.peer.closed):
+                self.cv.wait(self.timeout)
+            if self.buf:
+                if self.line_mode:
+                    i = self.buf.find(b"\n")
+                    if i >= 0:
+                        n = min(n, i + 1)
+                        if self.buf[:4] == b"SSH-":
+                            self.line_mode = False
+                out = bytes(self.buf[:n])
+                del self.buf[:n]
+                self.recv_bytes += len(out)
+                return out
+            if self.closed or self.peer is None or self.peer.closed:
+                return b""
+            raise socket.timeout()
+
+    def close(self):
+        self.closed = True
+        with self.cv:
+            self.cv.notify_all()
+        p = self.peer
+        if p is not None:
+            with p.cv:
+                p.cv.notify_all()
+
+
+_HOSTKEY = []
+
+
+def host_key():
+    if not _HOSTKEY:
+        from paramiko.ecdsakey import ECDSAKey
+        _HOSTKEY.append(ECDSAKey.generate())
+    return _HOSTKEY[0]
+
+
+def server_interface():
+    import paramiko
+
+    class Server(paramiko.ServerInterface):
+        def check_auth_none(self, username):
+            return paramiko.AUTH_SUCCESSFUL
+
+        def get_allowed_auths(self, username):
+            return "none"
+
+        def check_channel_request(self, kind, chanid):
+            return paramiko.OPEN_SUCCEEDED
+
+        def check_channel_shell_request(self, channel):
+            return True
+    return Server()
+
+
+def connect_pair(client_cls=None, server_cls=None, client_kw=None, server_kw=None, ciphers=None, macs=None, kex=None,
+                 compression=None, timeout=20, before_start=None):
+    """two real Transports over a LoopSock pair: handshake + auth none.  returns (tc, ts)"""
+    import threading
+    T = _T()
+    a, b = LoopSock.pair()
+    tc = (client_cls or T)(a, **(client_kw or {}))
+    ts = (server_cls or T)(b, **(server_kw or {}))
+    ts.add_server_key(host_key())
+    for t in (tc, ts):
+        so = t.get_security_options()
+        if ciphers:
+            so.ciphers = tuple(ciphers)
+        if macs:
+            so.digests = tuple(macs)
+        if kex:
+            so.kex = tuple(kex)
+        if compression:
+            so.compression = tuple(compression)
+    if before_start:
+        before_start(tc, ts)
+    ev = threading.Event()
+    ts.start_server(event=ev, server=server_interface())
+    tc.start_client(timeout=timeout)
+    ev.wait(timeout)
+    if not ts.is_active() or not tc.is_active():
+        raise Machinery("handshake failed: %r / %r" % (tc.get_exception(), ts.get_exception()))
+    tc.auth_none("user")
+    return tc, ts
+
+
+def kd_classes(log):
+    """Transport / Packetizer subclasses that log key requests and what gets installed"""
+    from paramiko.transport import Transport
+    from paramiko.packet import Packetizer
+
+    class KDPacketizer(Packetizer):
+        def set_outbound_cipher(self, *a, **kw):
+            log.append(("set", id(self), "out", kw.get("mac_key"), kw.get("iv_out"), kw.get("aead", False)))
+            return super().set_outbound_cipher(*a, **kw)
+
+        def set_inbound_cipher(self, *a, **kw):
+            log.append(("set", id(self), "in", kw.get("mac_key"), kw.get("iv_in"), kw.get("aead", False)))
+            return super().set_inbound_cipher(*a, **kw)
+
+    class KDTransport(Transport):
+        _kd_ctx = None
+
+        def _compute_key(self, id, nbytes):
+            out = super()._compute_key(id, nbytes)
+            log.append(("ck", builtins_id(self.packetizer), self._kd_ctx, id, nbytes, out))
+            return out
+
+        def _get_engine(self, name, key, iv=None, operation=None, aead=False):
+            log.append(("eng", builtins_id(self.packetizer), self._kd_ctx, name, key, iv))
+            return super()._get_engine(name, key, iv, operation, aead)
+
+        def _activate_outbound(self):
+            self._kd_ctx = "out"
+            log.append(("act", builtins_id(self.packetizer), "out", self.server_mode, self.K, self.H, self.session_id,
+                        getattr(self.kex_engine, "hash_algo", None), self.local_cipher, self.local_mac))
+            try:
+                return super()._activate_outbound()
+            finally:
+                self._kd_ctx = None
+
+        def _activate_inbound(self):
+            self._kd_ctx = "in"
+            log.append(("act", builtins_id(self.packetizer), "in", self.server_mode, self.K, self.H, self.session_id,
+                        getattr(self.kex_engine, "hash_algo", None), self.remote_cipher, self.remote_mac))
+            try:
+                return super()._activate_inbound()
+            finally:
+                self._kd_ctx = None
+    return KDTransport, KDPacketizer
+
+
+builtins_id = id
+
+
+# --------------------------------------------------------------------------- re-key bookkeeping (C10)
+
+def rekey_tap(log, name):
+    """Packetizer subclass (Transport(packetizer_class=...)) that records every packet with its size on
+    the socket, every key switch and every exception of read_message, in one ordered log"""
+    import threading
+    from paramiko.packet import Packetizer, NeedRekeyException
+
+    class Tap(Packetizer):
+        def __init__(self, sock):
+            super().__init__(sock)
+            self._tap_sock = sock
+            self._tap_lock = threading.RLock()      # makes log order = wire order for concurrent senders
+
+        def _tap(self, a, t=0, n=0):
+            log.append((name, a, t, n, bool(self.need_rekey())))
+
+        def send_message(self, data):
+            raw = data.asbytes()
+            with self._tap_lock:
+                before = self._tap_sock.sent_bytes
+                try:
+                    return super().send_message(data)
+                finally:
+                    self._tap("Send", raw[0] if raw else 0, self._tap_sock.sent_bytes - before)
+
+        def read_message(self):
+            before = self._tap_sock.recv_bytes
+            try:
+                ptype, m = super().read_message()
+            except NeedRekeyException:
+                self._tap("NeedRekey")
+                raise
+            except Exception as e:
+                log.append((name, "RecvFail", 0, self._tap_sock.recv_bytes - before, bool(self.need_rekey()),
+                            "%s: %s" % (type(e).__name__, e)))
+                raise
+            self._tap("Recv", ptype, self._tap_sock.recv_bytes - before)
+            return ptype, m
+
+        def set_outbound_cipher(self, *a, **kw):
+            r = super().set_outbound_cipher(*a, **kw)
+            self._tap("SetOut")
+            return r
+
+        def set_inbound_cipher(self, *a, **kw):
+            r = super().set_inbound_cipher(*a, **kw)
+            self._tap("SetIn")
+            return r
+    return Tap
+
+
+def stream_bytes(seed, off, n):
+    """n bytes at offset off of a stream in which every 8 byte word encodes its own position"""
+    first, last = off // 8, (off + n + 7) // 8
+    blob = b"".join(struct.pack(">II", seed & 0xffffffff, w) for w in range(first, last))
+    return blob[off - first * 8: off - first * 8 + n]
+
+
+class RekeySession:
+    """two real Transports (client c, server s) with scaled-down REKEY_* limits on their packetizers and one
+    channel; data flows as the scenario says; both packetizers are tapped"""
+
+    def __init__(self, rnd, limits, refuser=None, ciphers=None):
+        import threading
+        self.rnd, self.limits, self.refuser = rnd, limits, refuser
+        self.log = []
+        self.sent = {"c": 0, "s": 0}         # bytes written to the channel by each side
+        self.got = {"c": 0, "s": 0}          # bytes read from the channel by each side
+        self.bad = {"c": None, "s": None}    # first mismatch seen by the reader on that side
+        self.seed = {"c": rnd.getrandbits(32), "s": rnd.getrandbits(32)}
+
+        def before(tc, ts):
+            for nm, t in (("c", tc), ("s", ts)):
+                L = limits[nm]
+                t.packetizer.REKEY_PACKETS, t.packetizer.REKEY_BYTES = L["rp"], L["rb"]
+                t.packetizer.REKEY_PACKETS_OVERFLOW_MAX, t.packetizer.REKEY_BYTES_OVERFLOW_MAX = L["op"], L["ob"]
+        self.tc, self.ts = connect_pair(client_kw={"packetizer_class": rekey_tap(self.log, "c")},
+                                        server_kw={"packetizer_class": rekey_tap(self.log, "s")},
+                                        ciphers=ciphers, before_start=before)
+        self.cc = self.tc.open_session(timeout=20)
+        self.sc = self.ts.accept(20)
+        if self.sc is None:
+            raise Machinery("server side did not get the channel")
+        self.chan = {"c": self.cc, "s": self.sc}
+        self.readers = []
+        self.stop = False
+        for nm in ("c", "s"):
+            th = threading.Thread(target=self._reader, args=(nm,), daemon=True)
+            th.start()
+            self.readers.append(th)
+        if refuser:
+            # from now on this side never takes part in a key exchange: it ignores the peer's KEXINIT and its
+            # own limits are out of reach; it goes on sending
+            t = self.tc if refuser == "c" else self.ts
+            from paramiko.common import MSG_KEXINIT
+            t._handler_table[MSG_KEXINIT] = lambda m: None
+
+    def _reader(self, nm):
+        ch, other = self.chan[nm], ("s" if nm == "c" else "c")
+        ch.settimeout(0.05)
+        while not self.stop:
+            try:
+                d = ch.recv(65536)
+            except socket.timeout:
+                continue
+            except Exception:
+                return
+            if not d:
+                return
+            if self.bad[nm] is None and d != stream_bytes(self.seed[other], self.got[nm], len(d)):
+                self.bad[nm] = self.got[nm]
+            self.got[nm] += len(d)
+
+    def send(self, nm, n):
+        """write n bytes of side nm's stream to the channel (blocks while a key exchange is running)"""
+        ch = self.chan[nm]
+        try:
+            ch.sendall(stream_bytes(self.seed[nm], self.sent[nm], n))
+        except Exception:
+            return False
+        self.sent[nm] += n
+        return True
+
+    def transport(self, nm):
+        return self.tc if nm == "c" else self.ts
+
+    def settle(self, deadline=12.0, quiet=0.35, mark=False):
+        """wait until nothing moves any more: all written data read, no key exchange pending or running.
+        mark=True: a quiescent point reached in mid-session is logged as a "Quiet" event of both endpoints"""
+        import time
+        t_end = time.time() + deadline
+        last, since = None, time.time()
+        while time.time() < t_end:
+            snap = (len(self.log), self.got["c"], self.got["s"])
+            busy = False
+            for nm in ("c", "s"):
+                t = self.transport(nm)
+                if t.is_active() and nm != self.refuser and (t.in_kex or t.packetizer.need_rekey()):
+                    busy = True
+            both = self.tc.is_active() and self.ts.is_active()
+            if both and (self.got["s"] < self.sent["c"] or self.got["c"] < self.sent["s"]):
+                busy = True
+            if snap != last or busy:
+                last = snap
+                if snap != last or not busy:
+                    since = time.time()
+                if busy:
+                    since = time.time()
+            elif time.time() - since >= quiet:
+                if mark and both:
+                    for nm in ("c", "s"):
+                        self.log.append((nm, "Quiet", 0, 0, bool(self.transport(nm).packetizer.need_rekey())))
+                return True
+            time.sleep(0.02)
+        return False
+
+    def finish(self):
+        """End events; returns {name: trace dict}"""
+        settled = self.settle()
+        intact = (self.bad["c"] is None and self.bad["s"] is None
+                  and self.got["s"] == self.sent["c"] and self.got["c"] == self.sent["s"])
+        alive = {nm: bool(self.transport(nm).is_active()) for nm in ("c", "s")}
+        need = {nm: bool(self.transport(nm).packetizer.need_rekey()) for nm in ("c", "s")}
+        reason = {nm: repr(self.transport(nm).get_exception()) for nm in ("c", "s")}
+        self.stop = True
+        log = list(self.log)
+        self.tc.close()
+        self.ts.close()
+        out = {}
+        for nm in ("c", "s"):
+            ev = []
+            for e in log:
+                if e[0] != nm:
+                    continue
+                ev.append({"a": e[1], "t": int(e[2]), "len": int(e[3]), "nr": bool(e[4]), "ok": True})
+            ev.append({"a": "End", "t": 1 if intact else 0, "len": 0, "nr": need[nm], "ok": alive[nm]})
+            L = self.limits[nm]
+            out[nm] = {"rp": L["rp"], "rb": L["rb"], "op": L["op"], "ob": L["ob"], "ev": ev,
+                       "settled": settled, "intact": intact, "alive": alive[nm], "reason": reason[nm],
+                       "fails": [e[5] for e in log if e[0] == nm and e[1] == "RecvFail"]}
+        return out
